@@ -5,7 +5,7 @@ import random
 
 from .. import cdrive, common, drive, gen, opparse, render, tlc
 from ..report import Report
-from . import cwire, designlevel, pywire
+from . import cwire, designlevel, pywire, ufull
 
 
 def op_events(pr, cdir, godir, endian):
@@ -83,6 +83,28 @@ def main(tier, replay=None):
                 metas.append(pr)
                 for f in gen.features(pr["rtype"]):
                     rep.feature(f)
+            # every leaf type at every bit offset (U_full), symbolically
+            types = gen.ufull_leaf_types()
+            if tier == "quick":
+                types = [T for T in types if T["k"] in ("bool", "byte") or T["k"] == "int" and T["n"] % 2 == 1
+                         or T["n"] in (1, 7, 8, 9, 16, 17, 31, 32, 33, 63, 64)]
+            for T in types:
+                pr = ufull.ufull_prog(T, cap=2)
+                d = scratch.sub()
+                main_path, paths = render.write_program(pr, d)
+                cd, gd = os.path.join(d, "c"), os.path.join(d, "go")
+                os.makedirs(cd)
+                os.makedirs(gd)
+                drive.compile_program(paths, pr["order"], "c", cd, optimize=True)
+                drive.compile_program(paths, pr["order"], "go", gd, optimize=True)
+                pr["rtype"]["_decl"] = [x for x in pr["files"]["main"] if x["d"] == "message"][0]
+                try:
+                    events = op_events(pr, cd, gd, "both")
+                except opparse.ParseError as e:
+                    raise common.MachineryError("cannot parse a generated statement: %s" % e)
+                traces.append({"id": "c04-ufull-%s%s" % (T["k"], T.get("n", "")), "t": {"k": "bool"}, "events": events})
+                metas.append(pr)
+                rep.feature("ufull-type")
             verdicts, r = tlc.validate_traces("WireTrace", "WireTrace.cfg", traces)
             rep.add_tlc(r, "trace-validation:symbolic evaluation of generated bodies (Expr.tla)")
             rep.cov["traces_validated_against_impl"] += len(traces)
